@@ -122,7 +122,7 @@ func (g *Grammar) Tokens() []Symbol {
 	return g.Syms[:g.NumTokens]
 }
 
-// TokensWithoutPrec returns all lexical tokens defined in the grammar that don't participate in
+// TokensWithoutPrec returns all lexical tokens defined in the grammar (except eoi) that don't participate in
 // precedence resolution. This method facilitates grammar conversion into Bison-like syntax.
 func (g *Grammar) TokensWithoutPrec() []Symbol {
 	var ret []Symbol
@@ -132,7 +132,8 @@ func (g *Grammar) TokensWithoutPrec() []Symbol {
 			seen[int(term)] = true
 		}
 	}
-	for _, sym := range g.Syms[:g.NumTokens] {
+	// Note: eoi (index 0) is implicit in Bison.
+	for _, sym := range g.Syms[1:g.NumTokens] {
 		if !seen[sym.Index] {
 			ret = append(ret, sym)
 		}
